@@ -206,7 +206,14 @@ pub fn run_c15(ctx: &mut Ctx) {
     };
     let n = ctx.n(1_600, 150_000);
     ctx.cases("histories", n, |ctx, case, rng| {
-        let mech = if rng.chance(1, 5) { Mech::ShortTerm(Some(false)) } else { Mech::None };
+        // credential mechanisms matter here because a transaction completed by a 401 / 438 challenge
+        // or a refused response (Retry / DoNotRetry / ProtectionViolated) is a completed transaction
+        // whose response time feeds the estimator like any other
+        let mech = match rng.below(5) {
+            0 => Mech::ShortTerm(Some(false)),
+            1 => Mech::LongTerm,
+            _ => Mech::None,
+        };
         let mut cfg = gen_cfg(rng, Some(mech), &[10]);
         cfg.reliable = None;
         cfg.rto_ns = 100_000_000 + rng.below(2_900_000_000);
